@@ -59,7 +59,7 @@ def build_libs(verbose=False):
         shutil.rmtree(tmp, ignore_errors=True)
     # remove stale builds
     for d in glob.glob(os.path.join(root, "*")):
-        if os.path.basename(d) != key and ".tmp" not in d:
+        if os.path.basename(d) not in (key, "ast") and ".tmp" not in d:
             shutil.rmtree(d, ignore_errors=True)
     return out
 
